@@ -31,6 +31,7 @@ deriving Repr, DecidableEq
 inductive Exc
   | gradients_not_initialized | gradient_out_of_range | dependents_or_independents_not_identified
   | wrong_gradient | size_mismatch | unknown_handle | malformed
+  | stack_already_active
 deriving Repr, DecidableEq
 
 def Exc.name : Exc → String
@@ -41,6 +42,7 @@ def Exc.name : Exc → String
   | .size_mismatch => "size_mismatch"
   | .unknown_handle => "unknown_handle"
   | .malformed => "malformed"
+  | .stack_already_active => "stack_already_active"
 
 structure Cfg where
   W : Nat := 4             -- MULTIPASS_SIZE of the build
@@ -146,10 +148,20 @@ def St.getGrad (s : St) (idx : Nat) : Except Exc Int :=
   else if idx + 1 > s.grad.length then .error .gradient_out_of_range
   else .ok (s.grad.getD idx 0)
 
+/-- `Stack::compute_tangent_linear()`: objects registered since the working vector was initialised may have
+    statements whose indices lie beyond it, so the sweep is refused (`gradient_out_of_range`) as soon as
+    `max_gradient_` exceeds the initialised length -/
 def St.forward (s : St) : Except Exc St :=
-  if s.gradInit then .ok { s with grad := fwd s.tape s.grad } else .error .gradients_not_initialized
+  if s.gradInit then
+    if s.ga.maxGrad > s.grad.length then .error .gradient_out_of_range
+    else .ok { s with grad := fwd s.tape s.grad }
+  else .error .gradients_not_initialized
+/-- `Stack::compute_adjoint()`, same two tests -/
 def St.reverse (s : St) : Except Exc St :=
-  if s.gradInit then .ok { s with grad := rev s.tape s.grad } else .error .gradients_not_initialized
+  if s.gradInit then
+    if s.ga.maxGrad > s.grad.length then .error .gradient_out_of_range
+    else .ok { s with grad := rev s.tape s.grad }
+  else .error .gradients_not_initialized
 
 /-! ### Jacobian front ends -/
 
